@@ -588,6 +588,12 @@ def judge(run: Run):
                 for u in unreqs:
                     if u["kind"] == "undeploy" and u["dep"] not in group:
                         continue
+                    if u["kind"] == "undeploy" and u["dep"] != n and n in wrappers_up(u["dep"]):
+                        # a direct undeploy(inner) that overlaps only the deploy of a *wrapper* of inner is not the
+                        # F12f mechanism (undeploy(X) resuming after X's own deployment event / the orphan sweep):
+                        # the edge inner -> wrapper exists before the wrapper's connector starts deploying, so the
+                        # request must simply leave inner alone (sub-check `undeploy-race`, seed C26-3)
+                        continue
                     if i["ds"][0] < u["end"] and u["start"] < (i["df"] or i["dx"] or INF) and max(i["ds"][0], u["start"]) <= q:
                         found.append((2, "lazy-deploy-in-flight") if by[n]["lazy"] else (1, "undeploy-during-eager-deploy"))
         for r in reqs:
@@ -825,6 +831,10 @@ async def check_exhaustive(case, rec):
         if fv:
             raise Violation(*fv)
         return
+    await _run_block(case, rec)
+
+
+async def _run_block(case, rec):
     prefix: list[int] = []
     n = nt = 0
     found: dict[str, str] = {}
@@ -852,3 +862,30 @@ async def check_exhaustive(case, rec):
         unknown = [k for k in found if k not in kk]
         kind = (unknown or list(found))[0]
         raise Violation(kind, found[kind] + f" [block of {n} delay vectors; first-violation kinds in the block: {sorted(found)}]")
+
+
+
+# -- direct undeploy of a wrapped deployment racing with the deploy / first use of its wrapper ----------------
+# (seed C26-3: the dependency edge inner -> wrapper registered only once the wrapper's own deploy() has
+# finished). Only undeploy_all()/close() calls undeploy() in StreamFlow, but the statement quantifies over any
+# interleaving of deploy and undeploy requests, and undeploy(name) is the public request undeploy_all() fans
+# out into; the blocks below are the smallest histories where the edge matters: one request on the wrapper and
+# one undeploy of the deployment it wraps, after an optional earlier deploy, under every delay vector.
+
+
+def gen_undeploy_race(tier):
+    topos = ["eager<-eager", "lazy<-eager", "eager<-eager<-eager"] if tier == "quick" else ["eager<-eager", "lazy<-eager", "eager<-lazy", "eager<-eagerfail", "eager<-eager<-eager"]
+    for tname in topos:
+        deps = TOPOLOGIES[tname]
+        for w in range(1, len(deps)):
+            inner = deps[w]["wraps"]
+            for pre in ([], [["deploy", inner]], [["deploy", w]]):
+                for dop in (["deploy", w], ["use", w, "run"]):
+                    phases = ([[pre]] if pre else []) + [[[dop], [["undeploy", inner]]]]
+                    yield {"shape": "undeploy-race", "topology": tname, "deps": deps, "phases": phases, "final_close": True}
+
+
+@prop.enumerated("undeploy-race", gen_undeploy_race, max_shards=16)
+async def check_undeploy_race(case, rec):
+    rec.label(f"shape={case['shape']}", f"topology={case.get('topology', '?')}")
+    await _run_block(case, rec)
